@@ -82,7 +82,9 @@ theorem externalMove_tab (w : WM) (target : Nat) (e : Handle) (prev prevIdx : Na
     simp only [setLoc_tab, archRemove_tab, setArch_tab]
 
 theorem destroy_tab (w : WM) (t : Nat) (e : Handle) : tabOf (w.destroy t e) = tabOf w := by
-  unfold WM.destroy; split <;> rfl
+  unfold WM.destroy; split
+  · rfl
+  · split <;> rfl
 
 /-! ## destruction -/
 
